@@ -32,6 +32,8 @@ pub(crate) fn checked_mul_rounded(
     let max_n_frac_digits = x.n_frac_digits + y.n_frac_digits;
     if n_frac_digits >= max_n_frac_digits {
         // no need for rounding
+        #[cfg(feature = "verif-hooks")]
+        fpdec_core::verif::hit(fpdec_core::verif::MULR_EXACT);
         Some(Decimal {
             coeff: x.coeff.checked_mul(y.coeff)?,
             n_frac_digits: max_n_frac_digits,
@@ -39,11 +41,15 @@ pub(crate) fn checked_mul_rounded(
     } else {
         let shift = max_n_frac_digits - n_frac_digits;
         if let Some(coeff) = x.coeff.checked_mul(y.coeff) {
+            #[cfg(feature = "verif-hooks")]
+            fpdec_core::verif::hit(fpdec_core::verif::MULR_NARROW);
             Some(Decimal {
                 coeff: i128_div_rounded(coeff, ten_pow(shift), None),
                 n_frac_digits,
             })
         } else {
+            #[cfg(feature = "verif-hooks")]
+            fpdec_core::verif::hit(fpdec_core::verif::MULR_WIDE);
             let coeff =
                 i128_mul_div_ten_pow_rounded(x.coeff, y.coeff, shift, None)?;
             Some(Decimal {
